@@ -35,7 +35,7 @@
      __getitem__ / __iter__ / ConstraintsView: as for CNF (:203 copy of the outer list only,
                                  :198 / :34 / :48 the stored lists themselves)
    cnfgen/transformations/substitutions.py
-     FlipPolarity :85, XorSubstitution :105, OrSubstitution :284:  newF = CNF() (new object),
+     FlipPolarity :83-84, XorSubstitution :103-104, OrSubstitution :290-291:  newF = CNF() (new object),
                                  newF.header = copy(F.header) (new dict), add_description(newF, ...),
                                  clauses rebuilt literal by literal (tuples -> add_clause -> list())
    cnfgen/transformations/shuffle.py
